@@ -251,7 +251,17 @@ func c12StagingChild(args []string) int {
 		h := &hb{}
 		h.mk(dir2)
 		v.build(h, pred)
-		h.ls(dir2).at(dir2, target2, 10).ls(dir2).readBack(dir2, target2).at(dir2, target2, 20).ls(dir2).readBack(dir2, target2)
+		// every directory is listed before the AtomicCreate too, so that a
+		// divergence that has nothing to do with staging (names hidden from List
+		// …) shows up before it, under its ordinary signature
+		{
+			m := NewModel()
+			for _, o := range h.ops {
+				applyModel(m, o, nil)
+			}
+			h.ls(m.Dirs()...)
+		}
+		h.at(dir2, target2, 10).ls(dir2).readBack(dir2, target2).at(dir2, target2, 20).ls(dir2).readBack(dir2, target2)
 		v.after(h, pred)
 		if !validHistory(h.ops) {
 			panic("staging probe built an invalid history: " + strings.Join(opStrings(h.ops), ";"))
@@ -275,7 +285,7 @@ func c12StagingChild(args []string) int {
 }
 
 // runStagingProbe runs the child and reports what it found.
-func runStagingProbe(r *core.Run) (compared int64) {
+func runStagingProbe(r *core.Run, violate func(d c12div)) (compared int64) {
 	self, err := os.Executable()
 	if err != nil {
 		r.Inconclusive("cannot find own binary (staging probe)")
@@ -302,12 +312,24 @@ func runStagingProbe(r *core.Run) (compared int64) {
 		summary = append(summary, map[string]interface{}{"variant": v.Variant, "observed": v.Observed, "staged_in": v.Where, "predicted_next": v.Predicted,
 			"calls": len(v.History), "divergences": len(v.Divs)})
 		for _, d := range v.Divs {
-			sig := d.Base + "-while-the-predicted-staging-name-is-taken"
-			if d.Base != "dirfs-atomic-panics" {
-				sig = d.Base + "-after-atomiccreate-while-the-predicted-staging-name-is-taken"
+			// at the AtomicCreate itself, or later (a clobbered file of the caller,
+			// a wrong List): the taken staging name is the failing input class; a
+			// divergence BEFORE any AtomicCreate has nothing to do with staging and
+			// keeps its ordinary signature
+			atomicBefore := false
+			for _, o := range d.Ops[:len(d.Ops)-1] {
+				if o.K == "atomic" {
+					atomicBefore = true
+				}
 			}
-			r.Violate(sig, fmt.Sprintf("%s diverges from the model at %s (%s) in the variant %q: the caller holds exactly the name(s) the implementation is about to stage under (observed staging names %q in the %s, predicted next %q): expected %s, observed %s; history: %s",
-				d.Impl, d.Op, d.What, v.Variant, v.Observed, v.Where, v.Predicted, d.Expected, d.Observed, strings.Join(d.History, " ; ")), d)
+			switch {
+			case strings.HasPrefix(d.Op, "atomiccreate("):
+				d.Sig = d.Base + "-while-the-predicted-staging-name-is-taken"
+			case atomicBefore:
+				d.Sig = d.Base + "-after-atomiccreate-while-the-predicted-staging-name-is-taken"
+			}
+			d.What = fmt.Sprintf("%s [staging probe, variant %q: observed staging names %q in the %s, predicted next %q, held by the caller]", d.What, v.Variant, v.Observed, v.Where, v.Predicted)
+			violate(d)
 		}
 	}
 	r.Set("staging_probe", map[string]interface{}{"note": rep.Note, "variants": summary})
